@@ -9,7 +9,7 @@ def load(name):
     return [l.rstrip("\n") for l in open(f) if l.strip() and not l.startswith("#")]
 
 
-WITNESS = {("C04", "D21"): "kf-C04-D21-parked-cancel-overtaken-by-the-commit-from-another-thread.txt"}
+WITNESS = {}   # no witness-identified open finding at the moment (D21 was the first; fixed in da73ac0)
 
 
 def case(prop, fid, oracles):
